@@ -29,21 +29,20 @@ ASSUMPTIONS = [
     'float evaluation vs exact evaluation away from the tolerances is sampled by the exact-rational oracle (1e-9 relative, scaled by the '
     'conditioning of Heron / circumcentre / 2x2 solves), not proved',
     'the closed-form area theorems are definitional (formula read off the code, specialised to 4 pi r^2, 2 pi r h, pi r^2, 2(ab+bc+ca))',
-    'C19_fixed_* theorems are about the REPAIRED get_intersection_pt (patches/segment3d_coplanarity.patch), not the code in /repo',
+    'C19_pinned_* theorems are about get_intersection_pt BEFORE fix ec384e6 (Model/PinnedSegment.v): the record of finding F5',
 ]
 THEOREMS = ['C19_is_zero_and_compare_spec', 'C19_operator_identities', 'C19_length_distance_normalize', 'C19_is_parallel_spec',
             'C19_is_same_direction_spec', 'C19_get_perpendicular_spec', 'C19_is_collinear_spec',
-            'C19_collinear_measure_is_distance_times_length', 'C19_segment_parameters_solve_projection',
-            'C19_segment_points_coincide_iff_coplanar', 'C19_segment_parameters_complete', 'C19_segment_reported_iff',
-            'C19_segment_intersect_touches_spec', 'C19_segment_endpoint_contact',
-            'C19_segment_touch_is_common_point_outside_known_class', 'C19_segment_contains_spec', 'C19_segment_contains_point_exact',
-            'C19_segment_skew_reported_as_crossing_refuted', 'C19_segment_common_start_class_refuted',
-            'C19_segment_short_edges_crossing_missed_refuted', 'C19_float_witnesses_refuted', 'C19_fixed_skew_never_reported',
-            'C19_fixed_parameters', 'C19_fixed_complete', 'C19_fixed_common_start_touches', 'C19_fixed_windows',
-            'C19_barycentric_projection', 'C19_barycentric_in_plane', 'C19_test_point_spec', 'C19_triangle_new_spec',
-            'C19_heron_is_half_cross', 'C19_normal_unit_right_handed', 'C19_circumcenter_circumradius_spec',
-            'C19_centroid_aspect_ratio_spec', 'C19_triangle_lookup_spec', 'C19_sphere_area', 'C19_cylinder_area', 'C19_disk_area',
-            'C19_box_area']
+            'C19_collinear_measure_is_distance_times_length', 'C19_segment_skew_never_reported',
+            'C19_segment_parameters_solve_projection', 'C19_segment_points_coincide_iff_coplanar', 'C19_segment_parameters_complete',
+            'C19_segment_reported_iff', 'C19_segment_intersect_touches_spec', 'C19_segment_endpoint_contact',
+            'C19_segment_touch_is_common_point', 'C19_segment_common_start_touches', 'C19_segment_contains_spec',
+            'C19_segment_contains_point_exact', 'C19_segment_short_edges_crossing_missed_refuted', 'C19_pinned_segment_characterised',
+            'C19_pinned_segment_skew_reported_as_crossing_refuted', 'C19_pinned_segment_common_start_class_refuted',
+            'C19_pinned_agrees_outside_known_classes', 'C19_float_witnesses_refuted', 'C19_barycentric_projection',
+            'C19_barycentric_in_plane', 'C19_test_point_spec', 'C19_triangle_new_spec', 'C19_heron_is_half_cross',
+            'C19_normal_unit_right_handed', 'C19_circumcenter_circumradius_spec', 'C19_centroid_aspect_ratio_spec',
+            'C19_triangle_lookup_spec', 'C19_sphere_area', 'C19_cylinder_area', 'C19_disk_area', 'C19_box_area']
 
 def streams(tier):
     if tier == 'quick': return [Stream('C19', 2600)]
@@ -56,9 +55,10 @@ E5 = Fr(1e-5)            # the f64 constants the code compares against
 E8 = Fr(1e-8)
 ONE_M_E8 = Fr(1.0 - 1e-8)
 REL = Fr(1, 10 ** 9)
-# segments are called skew when their supporting lines are at least this far apart (the current code documents no
-# coplanarity tolerance; if patches/segment3d_coplanarity.patch is adopted its tolerance is 1e-5: set SKEW_MIN = 2e-5)
-SKEW_MIN = Fr(1e-6)
+# segments are called skew when their supporting lines are at least this far apart: since fix ec384e6 the code's documented
+# coplanarity tolerance is |delta . n| <= 1e-5 |n| (COPLANAR_TINY), so twice that is clear of it.  (Before the fix the
+# code had no coplanarity tolerance at all and 1e-6 was used here: finding F5, now "fixed" in known_findings.json.)
+SKEW_MIN = Fr(2e-5)
 STATS = {}
 def stat(k): STATS[k] = STATS.get(k, 0) + 1
 
@@ -302,7 +302,6 @@ def oracle_seg(c, i, o):
             return ('C19:segment:common-start-missed', 'two non-parallel segments that start at the same point (%s) are not reported as touching (get_intersection_pt = %r)'
                     % (', '.join('%.6g' % float(x) for x in s0), gip))
         return None
-    if tiny3(cross(delta, n)) or max(abs(x) for x in cross(delta, n)) < 4 * TINY: return None   # the code's own "zero" band
     if exp_inter is not None: stat('seg:intersect-judged-%r' % exp_inter)
     if exp_touch is not None: stat('seg:touches-judged-%r' % exp_touch)
     if exp_inter is not None and exp_inter != inter:
@@ -333,11 +332,13 @@ def oracle_contains(i, o, s0, s1, r0, r1, p, a, A2, la, scale):
         if got is not False: return ('C19:segment:contains-point', 'a point clearly off the line (distance x length > 1e-5) is not reported as outside')
     elif col is True and dist2(p) <= online:
         t = param(p)
-        exp = True if m6 <= t <= 1 - m6 else False if (t <= -m6 or t >= 1 + m6) else None
+        k = next((k for k in range(3) if abs(a[k]) > Fr(EPS)), None)
+        minor = k is not None and abs(a[k]) * 1000 < Fr(la)
+        # a point d off the line has, read along an axis of extent |a_k|, a parameter up to d / |a_k| away from t
+        mt = m6 if (minor or k is None) else m6 + 4 * Fr(fsqrt(dist2(p))) / abs(a[k])
+        exp = True if mt <= t <= 1 - mt else False if (t <= -mt or t >= 1 + mt) else None
         if exp is not None: stat('seg:contains_point-judged-%r' % exp)
         if exp is not None and got != exp:
-            k = next((k for k in range(3) if abs(a[k]) > Fr(EPS)), None)
-            minor = k is not None and abs(a[k]) * 1000 < Fr(la)
             return ('C19:segment:contains-point-noise-axis' if minor else 'C19:segment:contains-point',
                     'point at parameter %.6g of the segment (distance %.3g from its line): contains_point = %r; the parameter was read along axis %s where the segment extends by %.3g of its length %.3g'
                     % (float(t), fsqrt(dist2(p)), got, 'xyz'[k] if k is not None else '-', float(abs(a[k])) if k is not None else 0.0, la))
@@ -354,7 +355,9 @@ def oracle_contains(i, o, s0, s1, r0, r1, p, a, A2, la, scale):
         return None
     if c1 is True and c2 is True and dist2(r0) <= online and dist2(r1) <= online and max(abs(x) for x in a) > Fr(2e-6):
         al, be = param(r0), param(r1)
-        ins = lambda t: True if m6 <= t <= 1 - m6 else False if (t <= -m6 or t >= 1 + m6) else None
+        kc = next(k for k in range(3) if abs(a[k]) > Fr(1e-6))      # the axis the code reads (TINY = 1e-6)
+        mc = m6 + 4 * Fr(max(fsqrt(dist2(r0)), fsqrt(dist2(r1)))) / abs(a[kc])
+        ins = lambda t: True if mc <= t <= 1 - mc else False if (t <= -mc or t >= 1 + mc) else None
         exp = and3(ins(al), ins(be))
         if exp is not None: stat('seg:contains-judged-%r' % exp)
         if exp is not None and gotc != exp:
